@@ -87,6 +87,20 @@ def _run(beh, dtype):
                     (slice(max(0, n - 2), n), slice(None))]:
             r = sparse.sparse_getitem(sp, idx)
             outs.append(("sparse_getitem(sparse, %s)" % (idx,), r.to_dense() if r.is_sparse else r, dict(tensor=S[idx])))
+        outs.append(("the sparse tensor after the lookups", sp.to_dense(), dict(tensor=S)))
+        # a slice that drops no stored entry (the leading row / column holds none): the input must survive, a second lookup must agree
+        for dim in (0, 1):
+            S2 = S.clone()
+            S2.select(dim, 0).zero_()
+            if n < 2 or m < 2 or not S2.any():
+                continue
+            sp2 = S2.to_sparse()
+            idx = (slice(1, None), slice(None)) if dim == 0 else (slice(None), slice(1, None))
+            for rep in (1, 2):
+                r = sparse.sparse_getitem(sp2, idx)
+                outs.append(("sparse_getitem(sparse with empty leading %s, %s), call %d" % ("row" if dim == 0 else "column", idx, rep),
+                             r.to_dense() if r.is_sparse else r, dict(tensor=S2[idx])))
+            outs.append(("the sparse tensor after a slice that drops no entry", sp2.to_dense(), dict(tensor=S2)))
         return outs
     if k == "sparse_repeat":
         S = _T(a["s"], dtype)
